@@ -206,7 +206,22 @@ pub fn model_extract(ps: &Pset, lock_time: LockTime) -> Transaction {
                 is_pegin: idx & (1 << 30) != 0,
                 script_sig: i.final_script_sig.clone().unwrap_or_default(),
                 sequence: i.sequence.unwrap_or(Sequence::MAX),
-                asset_issuance: i.asset_issuance(),
+                // the commitment, when present, is what the transaction carries; an explicit amount next to
+                // it only serves the explicit-value proof
+                asset_issuance: elements::AssetIssuance {
+                    asset_blinding_nonce: i.issuance_blinding_nonce.unwrap_or(gen::ZERO_TWEAK),
+                    asset_entropy: i.issuance_asset_entropy.unwrap_or_default(),
+                    amount: match (i.issuance_value_comm, i.issuance_value_amount) {
+                        (Some(c), _) => elements::confidential::Value::Confidential(c),
+                        (None, Some(v)) => elements::confidential::Value::Explicit(v),
+                        _ => elements::confidential::Value::Null,
+                    },
+                    inflation_keys: match (i.issuance_inflation_keys_comm, i.issuance_inflation_keys) {
+                        (Some(c), _) => elements::confidential::Value::Confidential(c),
+                        (None, Some(v)) => elements::confidential::Value::Explicit(v),
+                        _ => elements::confidential::Value::Null,
+                    },
+                },
                 witness: TxInWitness {
                     amount_rangeproof: i.issuance_value_rangeproof.clone(),
                     inflation_keys_rangeproof: i.issuance_keys_rangeproof.clone(),
@@ -279,6 +294,9 @@ pub enum UidOp {
     TapInternalKey { input: usize, seed: u64 },
     InExplicitValueProof { input: usize, seed: u64 },
     InExplicitAssetProof { input: usize, seed: u64 },
+    /// explicit issuance amount / inflation keys next to an existing commitment, with its proof
+    IssuanceValueProof { input: usize, seed: u64 },
+    IssuanceKeysProof { input: usize, seed: u64 },
     OutScripts { output: usize, seed: u64 },
     OutBip32 { output: usize, seed: u64 },
     OutValueProof { output: usize, seed: u64 },
@@ -304,6 +322,8 @@ impl UidOp {
             UidOp::TapInternalKey { .. } => "tap_internal_key",
             UidOp::InExplicitValueProof { .. } => "in_explicit_value_proof",
             UidOp::InExplicitAssetProof { .. } => "in_explicit_asset_proof",
+            UidOp::IssuanceValueProof { .. } => "issuance_value_proof",
+            UidOp::IssuanceKeysProof { .. } => "issuance_keys_proof",
             UidOp::OutScripts { .. } => "out_scripts",
             UidOp::OutBip32 { .. } => "out_bip32",
             UidOp::OutValueProof { .. } => "out_value_proof",
@@ -315,7 +335,9 @@ impl UidOp {
         let input = p.usize_below(8);
         let output = p.usize_below(8);
         let seed = p.u64();
-        match p.below(22) {
+        match p.below(25) {
+            22 => UidOp::IssuanceValueProof { input, seed },
+            23 | 24 => UidOp::IssuanceKeysProof { input, seed },
             0 => UidOp::Sequence { input, seed },
             1 => UidOp::PartialSig { input, seed },
             2 => UidOp::SighashType { input, seed },
@@ -366,7 +388,7 @@ impl UidOp {
                     return;
                 }
                 let (input, seed) = match self {
-                    UidOp::Sequence { input, seed } | UidOp::PartialSig { input, seed } | UidOp::SighashType { input, seed } | UidOp::RedeemScript { input, seed } | UidOp::WitnessScript { input, seed } | UidOp::Bip32 { input, seed } | UidOp::FinalScriptSig { input, seed } | UidOp::FinalScriptWitness { input, seed } | UidOp::TapKeySig { input, seed } | UidOp::TapScriptSig { input, seed } | UidOp::TapLeafScript { input, seed } | UidOp::TapInternalKey { input, seed } | UidOp::InExplicitValueProof { input, seed } | UidOp::InExplicitAssetProof { input, seed } => (*input, *seed),
+                    UidOp::Sequence { input, seed } | UidOp::PartialSig { input, seed } | UidOp::SighashType { input, seed } | UidOp::RedeemScript { input, seed } | UidOp::WitnessScript { input, seed } | UidOp::Bip32 { input, seed } | UidOp::FinalScriptSig { input, seed } | UidOp::FinalScriptWitness { input, seed } | UidOp::TapKeySig { input, seed } | UidOp::TapScriptSig { input, seed } | UidOp::TapLeafScript { input, seed } | UidOp::TapInternalKey { input, seed } | UidOp::InExplicitValueProof { input, seed } | UidOp::InExplicitAssetProof { input, seed } | UidOp::IssuanceValueProof { input, seed } | UidOp::IssuanceKeysProof { input, seed } => (*input, *seed),
                     _ => unreachable!(),
                 };
                 let mut p = Prng::from_u64(seed);
@@ -407,6 +429,18 @@ impl UidOp {
                     UidOp::InExplicitAssetProof { .. } => {
                         i.asset = Some(gen::asset_id(&mut p));
                         i.blind_asset_proof = Some(Box::new(p.pick(&pl.surjproofs).clone()));
+                    }
+                    UidOp::IssuanceValueProof { .. } => {
+                        if i.issuance_value_comm.is_some() {
+                            i.issuance_value_amount = Some(1 + p.below(1 << 40));
+                            i.in_issuance_blind_value_proof = Some(Box::new(p.pick(&pl.rangeproofs).clone()));
+                        }
+                    }
+                    UidOp::IssuanceKeysProof { .. } => {
+                        if i.issuance_inflation_keys_comm.is_some() {
+                            i.issuance_inflation_keys = Some(1 + p.below(1 << 20));
+                            i.in_issuance_blind_inflation_keys_proof = Some(Box::new(p.pick(&pl.rangeproofs).clone()));
+                        }
                     }
                     _ => unreachable!(),
                 }
